@@ -273,3 +273,48 @@ package randomness
 //@     invariant 0 <= i && i <= param.k + 1
 //@     invariant V == lrchi(bits@pre, checkOne, param.m, param.startV, param.k, N, param.pi, i)
 //@   assert in loop 3: sqdev(v[i], real(N) * param.pi[i]) == (v[i] - real(N) * param.pi[i]) * (v[i] - real(N) * param.pi[i]) / (real(N) * param.pi[i])
+
+// ---------------------------------------------------------------------------------------------
+// binary_derivative.go
+// After pass i, _bits[t] is the i-th binary derivative at t for t < n-i (two zones inside a pass).
+
+//@ func BinaryDerivativeProto
+//@   requires len(bits) >= 7 && 1 <= k && k < len(bits)
+//@   modifies nothing
+//@   pure
+//@   loop 1
+//@     invariant 0 <= i && i <= k
+//@     invariant forall t int :: {_bits[t]} 0 <= t && t < n-i ==> _bits[t] == deriv(bits, i, t)
+//@   loop 2
+//@     invariant 0 <= j && j <= n-i-1
+//@     invariant forall t int :: {_bits[t]} 0 <= t && t < j ==> _bits[t] == deriv(bits, i+1, t)
+//@     invariant forall t int :: {_bits[t]} j <= t && t < n-i ==> _bits[t] == deriv(bits, i, t)
+//@   loop 3
+//@     invariant 0 <= i && i <= n-k
+//@     invariant S == 2*dones(bits, k, i) - i
+
+// ---------------------------------------------------------------------------------------------
+// cumulative.go
+
+//@ func normal_CDF
+//@   modifies nothing
+//@   ensures r0 == phiR(x)
+
+//@ func CumulativeTest
+//@   cases forward in {true, false}
+//@   requires len(bits) >= 1
+//@   modifies nothing
+//@   pure
+//@   let lo1 := ((-n / Z) + 1) / 4
+//@   let lo2 := ((-n / Z) - 3) / 4
+//@   loop 1
+//@     invariant 0 <= i && i <= n
+//@     invariant S == walk(bits, n, forward, i) && -i <= S && S <= i
+//@     invariant Z == maxabs(bits, n, forward, i) && 0 <= Z && Z <= i && (i >= 1 ==> Z >= 1)
+//@   assert after loop 1: 1 <= Z && Z <= n && n / Z >= 1 && -n / Z <= -1
+//@   loop 2
+//@     invariant lo1 <= i && i <= ((n/Z)-1)/4 + 1
+//@     invariant P == 1.0 - cusum(n, Z, 1, -1, lo1, i)
+//@   loop 3
+//@     invariant lo2 <= i && i <= ((n/Z)-1)/4 + 1
+//@     invariant P == 1.0 - cusum(n, Z, 1, -1, lo1, ((n/Z)-1)/4 + 1) + cusum(n, Z, 3, 1, lo2, i)
